@@ -150,8 +150,10 @@ def finish(o: Outcome) -> int:
   cov["checker_errors"] = o.checker_errors
   ev = {"property_id": o.prop, "tier": o.tier, "seed": o.seed, "level": o.level, "coverage": cov,
         "assumptions": o.assumptions, "wall_s": round(o.wall_s, 2), "violations": len(violations)}
-  os.makedirs(os.path.join(VERIF, "evidence"), exist_ok=True)
-  with open(os.path.join(VERIF, "evidence", o.prop + ".json"), "w", encoding="utf-8") as fh:
+  # evidence describes /repo; a development run against a scratch copy (TTCONV_REPO) must not overwrite it
+  evdir = os.path.join(VERIF, "evidence") if os.path.realpath(REPO) == "/repo" else os.path.join(VERIF, "replay", "_scratch-evidence")
+  os.makedirs(evdir, exist_ok=True)
+  with open(os.path.join(evdir, o.prop + ".json"), "w", encoding="utf-8") as fh:
     json.dump(ev, fh, indent=1, default=str)
   for ln in lines:
     print(ln)
